@@ -81,13 +81,18 @@ pub struct Tables {
     pub problems: Vec<String>,
 }
 
-/// Resolve a configuration name to a pattern: the crate's name table, or -- if that table no
-/// longer knows the name -- the default pattern whose Debug text snake-cases to it.
+/// Resolve a configuration name to a pattern without going through the crate's name table where
+/// possible (so that a wrong arm in `str_to_*` is C14's finding and does not disturb C11/C12):
+/// the default pattern whose Debug text snake-cases to the name; only if there is none (a variant
+/// whose identifier does not follow the name) the crate's own table.
 pub fn resolve(cat: Cat, name: &str) -> Option<Pat> {
-    if let Ok(p) = by_name(cat, name) {
+    if let Some(p) = defaults(cat)
+        .into_iter()
+        .find(|p| snake(&p.debug_key()) == name)
+    {
         return Some(p);
     }
-    defaults(cat).into_iter().find(|p| snake(&p.debug_key()) == name)
+    by_name(cat, name).ok()
 }
 
 impl Tables {
